@@ -85,6 +85,11 @@ def gen_spec(rng, depth):
     return spec
 
 
+def model_style_ok(name):
+    import re
+    return re.fullmatch(r'[a-z]{2,}(_[a-z]{2,})*', name) is not None
+
+
 def shape(spec):
     return (tuple(sorted(spec.opts.get('in_format', ('struct',)))), bool(spec.opts.get('kw_only')),
             tuple((f.ty.k, f.dflt, f.kw_only, f.init) for f in spec.fields), spec.post_init if not isinstance(spec.post_init, tuple) else 'raise_if')
@@ -160,6 +165,15 @@ def run(ctx):
             if so.kind != 'value' or set(so.val.keys()) != set(args):
                 ctx.violation('set-fields-exact', 'main', i, {**wit, 'dict(set_only=True)': so.brief(), 'expected_keys': sorted(args)}, mech=f"{path}:set-record")
                 return False
+            # ... also when the view is asked for in another naming style (the record holds Python names; the keys are restyled)
+            if all(model_style_ok(n) for n in args):
+                st_ = ('scream', 'camel', 'kebab', 'pascal')[len(args) % 4]
+                so2 = observe(inst.dict, set_only=True, rename=st_)
+                want2 = {model.style_name(n, st_) for n in args}
+                if so2.kind != 'value' or set(so2.val.keys()) != want2:
+                    ctx.violation('set-fields-exact', 'main', i, {**wit, f"dict(set_only=True, rename={st_!r})": so2.brief(), 'expected_keys': sorted(want2)},
+                                  mech=f"{path}:set-record-renamed-view")
+                    return False
             ps = getattr(inst, '__pane_set__', None)
             if not isinstance(ps, set) or id(ps) in seen_sets:
                 ctx.violation('set-fields-exact', 'main', i, {**wit, 'why': 'the set-field record is shared between instances'}, mech=f"{path}:set-record-shared")
@@ -318,6 +332,13 @@ def run(ctx):
                                   ('from_dict_unchecked', lambda: cls.from_dict_unchecked({f.name: getattr(src, f.name) for f in init_fields}))):
                     del log[:]
                     o = observe(op)
+                    if o.kind == 'value' and cname in ('deepcopy', 'replace'):
+                        # products of default factories are not shared between the source and the new instance
+                        for fname in facs:
+                            a_, b_ = getattr(src, fname, None), getattr(o.val, fname, None)
+                            if a_ is b_ and isinstance(a_, (list, dict, set)):
+                                ctx.violation('defaults-are-fresh', 'main', i, {'class': S.brief(), 'operation': cname, 'field': fname, 'value': short(a_)},
+                                              mech=f"{cname}:factory-product-shared")
                     if o.kind == 'value' and cname in ('copy', 'deepcopy', 'replace'):
                         # the new instance has a set-field record of its OWN (equal to the source's, never the same object)
                         ctx.count('record_ownership_checks')
